@@ -350,4 +350,383 @@ CASES = {
         ('                    if sq_dist <= sq_radius:\n',
          '                    if <int>sq_dist <= sq_radius:\n'),
     ]),
+    # ---- red team D (redteam/D: alias model, effects, by-value inlining, casts, slices, folding, facts, equivalence) ----
+    'D1': ('C17', 'structure/residues.py', [
+        ('    residue_starts = np.where(residue_change_mask)[0] + 1\n',
+         '    residue_starts = np.where(residue_change_mask)[0] + 1\n    view = residue_starts.T\n    view[:] = 0\n'),
+    ]),
+    'D1b': ('C05', 'structure/io/pdbx/bcif.py', [
+        ('            array = self._data.array.astype(dtype, copy=True)\n            if masked_value is None:\n',
+         '            array = self._data.array.T\n            if masked_value is None:\n'),
+    ]),
+    'D1c': ('C11', 'sequence/align/cigar.py', [
+        ('        seg_codes = symbol_codes[segment_index, :]\n',
+         '        seg_codes = symbol_codes[segment_index, :]\n        flipped = seg_codes.T\n        flipped[:] = 0\n'),
+    ]),
+    'D2': ('C17', 'structure/residues.py', [
+        ('    residue_starts = np.where(residue_change_mask)[0] + 1\n',
+         "    residue_starts = np.where(residue_change_mask)[0] + 1\n    view = np.einsum('i->i', residue_starts)\n    view[:] = 0\n"),
+    ]),
+    'D2b': ('C17', 'structure/residues.py', [
+        ('    residue_starts = np.where(residue_change_mask)[0] + 1\n',
+         '    residue_starts = np.where(residue_change_mask)[0] + 1\n    view = np.ascontiguousarray(a=residue_starts)\n    view[:] = 0\n'),
+    ]),
+    'D2c': ('C17', 'structure/residues.py', [
+        ('    residue_starts = np.where(residue_change_mask)[0] + 1\n',
+         '    residue_starts = np.where(residue_change_mask)[0] + 1\n    view = residue_starts.__array__()\n    view[:] = 0\n'),
+    ]),
+    'D2d': ('C17', 'structure/residues.py', [
+        ('    residue_starts = np.where(residue_change_mask)[0] + 1\n',
+         '    residue_starts = np.where(residue_change_mask)[0] + 1\n    view = max(residue_starts, residue_starts, key=id)\n    view[:] = 0\n'),
+    ]),
+    'D2e': ('C04', 'structure/io/pdbx/convert.py', [
+        ('    block = _get_block(pdbx_file, data_block)\n\n    extra_fields = set() if extra_fields is None else set(extra_fields)\n',
+         '    block = _get_block(pdbx_file, data_block)\n\n    extra_fields = set() if extra_fields is None else next(iter([extra_fields]))\n'),
+    ]),
+    'D2f': ('C04', 'structure/io/pdbx/convert.py', [
+        ('    block = _get_block(pdbx_file, data_block)\n\n    extra_fields = set() if extra_fields is None else set(extra_fields)\n',
+         '    block = _get_block(pdbx_file, data_block)\n\n    import contextlib\n    with contextlib.nullcontext(set() if extra_fields is None else extra_fields) as extra_fields:\n        pass\n'),
+    ]),
+    'D2g': ('C13', 'sequence/annotation.py', [
+        ('            self._features = set(features)\n',
+         '            self._features = next(iter([features]))\n'),
+    ]),
+    'D3': ('C17', 'structure/residues.py', [
+        ('    residue_starts = np.where(residue_change_mask)[0] + 1\n',
+         '    residue_starts = np.where(residue_change_mask)[0] + 1\n    box = []\n    box.append(residue_starts)\n    box[0][:] = 0\n'),
+    ]),
+    'D3b': ('C17', 'structure/residues.py', [
+        ('    residue_starts = np.where(residue_change_mask)[0] + 1\n',
+         '    residue_starts = np.where(residue_change_mask)[0] + 1\n    box = []\n    box += [residue_starts]\n    box[0][:] = 0\n'),
+    ]),
+    'D3c': ('C17', 'structure/residues.py', [
+        ('    residue_starts = np.where(residue_change_mask)[0] + 1\n',
+         '    residue_starts = np.where(residue_change_mask)[0] + 1\n    box = [] + [residue_starts]\n    box[0][:] = 0\n'),
+    ]),
+    'D3d': ('C04', 'structure/io/pdbx/convert.py', [
+        ('    block = _get_block(pdbx_file, data_block)\n\n    extra_fields = set() if extra_fields is None else set(extra_fields)\n',
+         "    block = _get_block(pdbx_file, data_block)\n\n    extra_fields = dict(given=set() if extra_fields is None else extra_fields)['given']\n"),
+    ]),
+    'D3e': ('C04', 'structure/io/pdbx/convert.py', [
+        ('    block = _get_block(pdbx_file, data_block)\n\n    extra_fields = set() if extra_fields is None else set(extra_fields)\n',
+         '    block = _get_block(pdbx_file, data_block)\n\n    extra_fields = [set() if extra_fields is None else extra_fields].copy()[0]\n'),
+    ]),
+    'D3f': ('C17', 'structure/residues.py', [
+        ('    residue_starts = np.where(residue_change_mask)[0] + 1\n',
+         '    residue_starts = np.where(residue_change_mask)[0] + 1\n    try:\n        raise ValueError(residue_starts)\n    except ValueError as e:\n        e.args[0][:] = 0\n'),
+    ]),
+    'D4': ('C05', 'structure/io/pdbx/bcif.py', [
+        ('            array = self._data.array.astype(dtype, copy=True)\n            if masked_value is None:\n',
+         '            opts = dict(copy=False)\n            array = self._data.array.astype(dtype, **opts)\n            if masked_value is None:\n'),
+    ]),
+    'D5': ('C11', 'sequence/align/cigar.py', [
+        ('        seg_codes = symbol_codes[segment_index, :]\n',
+         '        seg_codes = symbol_codes[segment_index, :]\n        part = np.split(seg_codes, 1)[0]\n        part[:] = 0\n'),
+    ]),
+    'D6': ('C17', 'structure/residues.py', [
+        ('    residue_starts = np.where(residue_change_mask)[0] + 1\n',
+         '    residue_starts = np.where(residue_change_mask)[0] + 1\n    np.asarray(residue_starts)[:] = 0\n'),
+    ]),
+    'D6b': ('C17', 'structure/residues.py', [
+        ('    residue_starts = np.where(residue_change_mask)[0] + 1\n',
+         '    residue_starts = np.where(residue_change_mask)[0] + 1\n    residue_starts.view().fill(0)\n'),
+    ]),
+    'D6c': ('C17', 'structure/residues.py', [
+        ('    residue_starts = np.where(residue_change_mask)[0] + 1\n',
+         '    residue_starts = np.where(residue_change_mask)[0] + 1\n    (residue_starts if add_exclusive_stop else residue_starts)[:] = 0\n'),
+    ]),
+    'D6d': ('C11', 'sequence/align/cigar.py', [
+        ('        seg_codes = symbol_codes[segment_index, :]\n',
+         '        seg_codes = symbol_codes[segment_index, :]\n        np.asarray(seg_codes)[:] = 0\n'),
+    ]),
+    'D7': ('C16', 'structure/superimpose.py', [
+        ('    v[reflected_mask, :, -1] *= -1\n    matrices = np.matmul(v, w)\n',
+         '    u = v if reflected_mask.all() else v.copy()\n    v[reflected_mask, :, -1] *= -1\n    matrices = np.matmul(u, w)\n'),
+    ]),
+    'D7b': ('C16', 'structure/superimpose.py', [
+        ('    v[reflected_mask, :, -1] *= -1\n    matrices = np.matmul(v, w)\n',
+         '    u = v[::-1]\n    v[reflected_mask, :, -1] *= -1\n    matrices = np.matmul(u, w)\n'),
+    ]),
+    'D8': ('C17', 'structure/residues.py', [
+        ('    residue_starts = np.where(residue_change_mask)[0] + 1\n',
+         '    residue_starts = np.where(residue_change_mask)[0] + 1\n    residue_starts.size and residue_starts.fill(0)\n'),
+    ]),
+    'D8b': ('C17', 'structure/residues.py', [
+        ('    residue_starts = np.where(residue_change_mask)[0] + 1\n',
+         '    residue_starts = np.where(residue_change_mask)[0] + 1\n    assert residue_starts.fill(0) is None\n'),
+    ]),
+    'D8c': ('C17', 'structure/residues.py', [
+        ('    residue_starts = np.where(residue_change_mask)[0] + 1\n',
+         '    residue_starts = np.where(residue_change_mask)[0] + 1\n    class _Scratch:\n        residue_starts.fill(0)\n'),
+    ]),
+    'D8d': ('C03', 'sequence/codon.py', [
+        ('            numbers = numbers - digit * val\n        return codons\n',
+         '            numbers = numbers - digit * val\n        numbers.shape and codons.sort()\n        return codons\n'),
+    ]),
+    'D9': ('C17', 'structure/residues.py', [
+        ('    residue_starts = np.where(residue_change_mask)[0] + 1\n',
+         '    residue_starts = np.where(residue_change_mask)[0] + 1\n    (residue_starts := residue_starts[::-1])\n'),
+    ]),
+    'D9b': ('C17', 'structure/residues.py', [
+        ('    residue_starts = np.where(residue_change_mask)[0] + 1\n',
+         '    residue_starts = np.where(residue_change_mask)[0] + 1\n    if (residue_starts := residue_starts[::-1]) is None:\n        pass\n'),
+    ]),
+    'D9c': ('C17', 'structure/residues.py', [
+        ('    residue_starts = np.where(residue_change_mask)[0] + 1\n',
+         '    residue_starts = np.where(residue_change_mask)[0] + 1\n    n_starts = len(residue_starts := residue_starts[::-1])\n'),
+    ]),
+    'D10': ('C05', 'structure/io/pdbx/compress.py', [
+        ('def _compress_column(bcif_column, float_tolerance):\n',
+         'def _compress_column(bcif_column, float_tolerance):\n    match 1e-6:\n        case float_tolerance:\n            pass\n'),
+    ]),
+    'D10b': ('C17', 'structure/residues.py', [
+        ('    residue_starts = np.where(residue_change_mask)[0] + 1\n',
+         '    residue_starts = np.where(residue_change_mask)[0] + 1\n    from numpy import flatnonzero as residue_starts\n'),
+    ]),
+    'D10c': ('C17', 'structure/residues.py', [
+        ('    residue_starts = np.where(residue_change_mask)[0] + 1\n',
+         '    residue_starts = np.where(residue_change_mask)[0] + 1\n    def residue_starts():\n        return 0\n'),
+    ]),
+    'D11': ('C17', 'structure/residues.py', [
+        ('    residue_starts = np.where(residue_change_mask)[0] + 1\n',
+         '    residue_starts = np.where(residue_change_mask)[0] + 1\n    if 1 == 1.0:\n        residue_starts = residue_starts[::-1]\n'),
+    ]),
+    'D11b': ('C03', 'sequence/codon.py', [
+        ('            codons[..., -(n + 1)] = digit\n',
+         '            codons[..., -(n + 1)] = digit if n != 0.0 else 0\n'),
+    ]),
+    'D11c': ('C11', 'sequence/align/cigar.py', [
+        ('            clip_mask[i : i + length] = False\n            seg_pos += length\n',
+         '            clip_mask[i : i + length] = False\n            if True != 1:\n                seg_pos += length\n'),
+    ]),
+    'D11d': ('C11', 'sequence/align/cigar.py', [
+        ('_str_to_op = {\n',
+         'CigarOp.CLIP = CigarOp.HARD_CLIP\n\n_str_to_op = {\n'),
+        ('        elif op == CigarOp.SOFT_CLIP:\n',
+         '        elif op == CigarOp.SOFT_CLIP or op == CigarOp.CLIP:\n'),
+    ]),
+    'D12': ('C17', 'structure/residues.py', [
+        ('    residue_starts = np.where(residue_change_mask)[0] + 1\n',
+         '    def _clear():\n        residue_starts[:] = 0\n    residue_starts = np.where(residue_change_mask)[0] + 1\n    _clear()\n'),
+    ]),
+    'D12b': ('C17', 'structure/residues.py', [
+        ('    residue_starts = np.where(residue_change_mask)[0] + 1\n',
+         '    residue_starts = np.where(residue_change_mask)[0] + 1\n    def _clear():\n        np.put(residue_starts, 0, 0)\n    _clear()\n'),
+    ]),
+    'D12c': ('C17', 'structure/residues.py', [
+        ('    residue_starts = np.where(residue_change_mask)[0] + 1\n',
+         '    residue_starts = np.where(residue_change_mask)[0] + 1\n    def _clear():\n        target = residue_starts\n        target[:] = 0\n    _clear()\n'),
+    ]),
+    'D12d': ('C05', 'structure/io/pdbx/bcif.py', [
+        ('            array = self._data.array.astype(dtype, copy=True)\n            if masked_value is None:\n',
+         '            def _values():\n                return self._data.array\n            array = _values()\n            if masked_value is None:\n'),
+    ]),
+    'D13': ('C17', 'structure/residues.py', [
+        ('    residue_starts = np.where(residue_change_mask)[0] + 1\n',
+         '    residue_starts = np.where(residue_change_mask)[0] + 1\n    for row in residue_starts.reshape(1, -1):\n        row[:] = 0\n'),
+    ]),
+    'D13b': ('C17', 'structure/residues.py', [
+        ('    residue_starts = np.where(residue_change_mask)[0] + 1\n',
+         '    residue_starts = np.where(residue_change_mask)[0] + 1\n    try:\n        part = residue_starts[:]\n        part[:] = 0\n    except ValueError:\n        pass\n'),
+    ]),
+    'D14': ('C17', 'structure/residues.py', [
+        ('def get_residue_starts(array, add_exclusive_stop=False):\n',
+         'def _check_starts(starts):\n    clear = lambda: 0\n    starts[:] = clear()\n\n\ndef get_residue_starts(array, add_exclusive_stop=False):\n'),
+        ('    residue_starts = np.where(residue_change_mask)[0] + 1\n',
+         '    residue_starts = np.where(residue_change_mask)[0] + 1\n    _check_starts(residue_starts)\n'),
+    ]),
+    'D15': ('C11', 'sequence/align/cigar.py', [
+        ('        symbol_codes = get_codes(alignment)\n',
+         '        symbol_codes = get_codes(alignment)\n        np.minimum(symbol_codes, 0, symbol_codes)\n'),
+    ]),
+    'D15b': ('C11', 'sequence/align/cigar.py', [
+        ('        seg_codes = symbol_codes[segment_index, :]\n',
+         '        seg_codes = symbol_codes[segment_index, :]\n        np.minimum(seg_codes, 0, seg_codes)\n'),
+    ]),
+    'D15c': ('C11', 'sequence/align/cigar.py', [
+        ('        symbol_codes = get_codes(alignment)\n',
+         '        symbol_codes = get_codes(alignment)\n        np.random.default_rng(0).shuffle(symbol_codes, axis=1)\n'),
+    ]),
+    'D15d': ('C17', 'structure/residues.py', [
+        ('    residue_starts = np.where(residue_change_mask)[0] + 1\n',
+         '    residue_starts = np.where(residue_change_mask)[0] + 1\n    _ = np.clip(residue_starts, 3, None, residue_starts)\n'),
+    ]),
+    'D15e': ('C17', 'structure/residues.py', [
+        ('    residue_starts = np.where(residue_change_mask)[0] + 1\n',
+         '    residue_starts = np.where(residue_change_mask)[0] + 1\n    _ = np.ndarray.fill(residue_starts, 0)\n'),
+    ]),
+    'D15f': ('C17', 'structure/residues.py', [
+        ('    residue_starts = np.where(residue_change_mask)[0] + 1\n',
+         '    residue_starts = np.where(residue_change_mask)[0] + 1\n    _ = np.random.default_rng(3).shuffle(residue_starts)\n'),
+    ]),
+    'D16': ('C17', 'structure/residues.py', [
+        ('    residue_starts = np.where(residue_change_mask)[0] + 1\n',
+         '    for _unused in (residue_change_mask.fill(True),):\n        pass\n    residue_starts = np.where(residue_change_mask)[0] + 1\n'),
+    ]),
+    'D16b': ('C17', 'structure/residues.py', [
+        ('    residue_starts = np.where(residue_change_mask)[0] + 1\n',
+         '    _junk = [0 for _unused in (residue_change_mask.fill(True),)]\n    residue_starts = np.where(residue_change_mask)[0] + 1\n'),
+    ]),
+    'D17': ('C01', 'structure/atoms.py', [
+        ('    def __init__(self, length):\n        """\n        Create the annotation arrays\n        """\n',
+         '    _ATOM_AXIS = -2\n\n    def __init__(self, length):\n        """\n        Create the annotation arrays\n        """\n'),
+        ('            self._coord = np.delete(self._coord, index, axis=-2)',
+         '            self._coord = np.delete(self._coord, index, axis=self._ATOM_AXIS)'),
+        ('    def __init__(self, depth, length):\n        super().__ini',
+         "    def __init__(self, depth, length):\n        self.__dict__['_ATOM_AXIS'] = 0\n        super().__ini"),
+    ]),
+    'D17b': ('C01', 'structure/atoms.py', [
+        ('    def __init__(self, length):\n        """\n        Create the annotation arrays\n        """\n',
+         '    _ATOM_AXIS = -2\n\n    def __init__(self, length):\n        """\n        Create the annotation arrays\n        """\n'),
+        ('            self._coord = np.delete(self._coord, index, axis=-2)',
+         '            self._coord = np.delete(self._coord, index, axis=self._ATOM_AXIS)'),
+        ('    def __init__(self, depth, length):\n        super().__ini',
+         "    def __init__(self, depth, length):\n        object.__setattr__(self, '_ATOM_AXIS', 0)\n        super().__ini"),
+    ]),
+    'D17c': ('C01', 'structure/atoms.py', [
+        ('    def __init__(self, length):\n        """\n        Create the annotation arrays\n        """\n',
+         '    _ATOM_AXIS = -2\n\n    def __init__(self, length):\n        """\n        Create the annotation arrays\n        """\n'),
+        ('            self._coord = np.delete(self._coord, index, axis=-2)',
+         '            self._coord = np.delete(self._coord, index, axis=self._ATOM_AXIS)'),
+        ('class AtomArrayStack(_AtomArrayBase):',
+         "class AtomArrayStack(type('_StackAxes', (_AtomArrayBase,), {'_ATOM_AXIS': 0})):"),
+    ]),
+    'D18': ('C20', 'application/application.py', [
+        ('        else:\n            self._state = AppState.JOINED\n        self.clean_up()\n',
+         '        else:\n            self._state = AppState.JOINED\n        self._finish()\n\n    @requires_state(AppState.CREATED)\n    def _finish(self):\n        self.clean_up()\n'),
+    ]),
+    'D18b': ('C17', 'structure/residues.py', [
+        ('def get_residue_starts(array, add_exclusive_stop=False):\n',
+         'def _shifted(f):\n    return lambda *a: f(*a) + 1\n\n\n@_shifted\ndef _starts_of(mask):\n    return np.where(mask)[0] + 1\n\n\ndef get_residue_starts(array, add_exclusive_stop=False):\n'),
+        ('    residue_starts = np.where(residue_change_mask)[0] + 1\n',
+         '    residue_starts = _starts_of(residue_change_mask)\n'),
+    ]),
+    'D19': ('C17', 'structure/residues.py', [
+        ('def get_residue_starts(array, add_exclusive_stop=False):\n',
+         'residue_change_mask = np.zeros(0, dtype=bool)\n\n\ndef _starts():\n    return np.where(residue_change_mask)[0] + 1\n\n\ndef get_residue_starts(array, add_exclusive_stop=False):\n'),
+        ('    residue_starts = np.where(residue_change_mask)[0] + 1\n',
+         '    residue_starts = _starts()\n'),
+    ]),
+    'D20': ('C14', 'structure/celllist.pyx', [
+        ('                    if sq_dist <= sq_radius:\n',
+         '                    if <signed int>sq_dist <= sq_radius:\n'),
+    ]),
+    'D20b': ('C14', 'structure/celllist.pyx', [
+        ('                    if sq_dist <= sq_radius:\n',
+         '                    if <long int>sq_dist <= sq_radius:\n'),
+    ]),
+    'D20c': ('C14', 'structure/celllist.pyx', [
+        ('ctypedef np.uint64_t ptr\n',
+         'ctypedef np.uint64_t ptr\nctypedef int whole\n'),
+        ('                    if sq_dist <= sq_radius:\n',
+         '                    if <whole>sq_dist <= sq_radius:\n'),
+    ]),
+    'D20d': ('C14', 'structure/celllist.pyx', [
+        ('                    if sq_dist <= sq_radius:\n',
+         '                    if <ptr>sq_dist <= sq_radius:\n'),
+    ]),
+    'D21': ('C14', 'structure/celllist.pyx', [
+        ('                                if (adj_k >= 0 and adj_k < cells.shape[2]):\n                                    # Fill index array\n                                    # with indices in cell\n                                    list_ptr = <int*>cells[adj_i, adj_j, adj_k]\n                                    length = cell_length[adj_i, adj_j, adj_k]\n                                    for cell_i in range(length):\n                                        indices[pos_i, array_i] = \\\n                                            list_ptr[cell_i]\n                                        array_i += 1\n',
+         '                                if (adj_k >= 0 and adj_k < cells.shape[2]):\n                                    adj_k = adj_k + 1\n                                else:\n                                    continue\n                                list_ptr = <int*>cells[adj_i, adj_j, adj_k]\n                                length = cell_length[adj_i, adj_j, adj_k]\n                                for cell_i in range(length):\n                                    indices[pos_i, array_i] = \\\n                                        list_ptr[cell_i]\n                                    array_i += 1\n'),
+    ]),
+    'D21b': ('C14', 'structure/celllist.pyx', [
+        ('                                if (adj_k >= 0 and adj_k < cells.shape[2]):\n',
+         '                                if (adj_k >= 0 and adj_k < cells.shape[2] and advance(&adj_k)):\n'),
+    ]),
+    'D21c': ('C14', 'structure/celllist.pyx', [
+        ('                                if (adj_k >= 0 and adj_k < cells.shape[2]):\n',
+         '                                if (adj_k >= 0 and adj_k < cells.shape[2] and (adj_k := adj_k + 1)):\n'),
+    ]),
+    'D21d': ('C14', 'structure/celllist.pyx', [
+        ('        cdef int* list_ptr\n',
+         '        cdef int* list_ptr\n        cdef int* k_ptr = &adj_k\n'),
+        ('                                    list_ptr = <int*>cells[adj_i, adj_j, adj_k]\n',
+         '                                    memset(k_ptr, 1, sizeof(int))\n                                    list_ptr = <int*>cells[adj_i, adj_j, adj_k]\n'),
+    ]),
+    'D22': ('C05', 'structure/io/pdbx/bcif.py', [
+        ('            array = self._data.array.astype(dtype, copy=True)\n            if masked_value is None:\n',
+         "            array = self._data.array.astype(dtype, copy=True)\n            if masked_value is None:\n                np.putmask(self._data.array, self._mask.array == MaskValue.INAPPLICABLE, '.')\n"),
+    ]),
+    'D22b': ('C05', 'structure/io/pdbx/bcif.py', [
+        ('            array = self._data.array.astype(dtype, copy=True)\n            if masked_value is None:\n',
+         "            array = self._data.array.astype(dtype, copy=True)\n            if masked_value is None:\n                np.copyto(self._data.array, '.', where=self._mask.array == MaskValue.INAPPLICABLE)\n"),
+    ]),
+    'D23': ('C04', 'structure/io/pdbx/convert.py', [
+        ('    block = _get_block(pdbx_file, data_block)\n\n    extra_fields = set() if extra_fields is None else set(extra_fields)\n',
+         '    block = _get_block(pdbx_file, data_block)\n\n    extra_fields = set() if extra_fields is None else extra_fields\n'),
+        ('    _fill_annotations(atoms, model_atom_site, extra_fields, use_author_fields)\n',
+         '    (_fill_annotations if use_author_fields else _fill_annotations)(atoms, model_atom_site, extra_fields, use_author_fields)\n'),
+    ]),
+    'D23b': ('C04', 'structure/io/pdbx/convert.py', [
+        ('    block = _get_block(pdbx_file, data_block)\n\n    extra_fields = set() if extra_fields is None else set(extra_fields)\n',
+         '    block = _get_block(pdbx_file, data_block)\n\n    extra_fields = set() if extra_fields is None else extra_fields\n'),
+        ('    _fill_annotations(atoms, model_atom_site, extra_fields, use_author_fields)\n',
+         '    import functools\n    functools.partial(_fill_annotations, atoms, model_atom_site, extra_fields)(use_author_fields)\n'),
+    ]),
+    'D23c': ('C05', 'structure/io/pdbx/compress.py', [
+        ('def _compress_column(bcif_column, float_tolerance):\n    data = _compress_data(bcif_column.data, float_tolerance)\n',
+         'def _compress_column(bcif_column, float_tolerance):\n    import functools\n    data = functools.partial(_compress_data, float_tolerance=1e-6)(bcif_column.data)\n'),
+    ]),
+    'D24': ('C13', 'sequence/annotation.py', [
+        ('            self._features = set(features)\n',
+         "            setattr(self, '_features', features)\n"),
+    ]),
+    'D24b': ('C13', 'sequence/annotation.py', [
+        ('            self._features = set(features)\n',
+         "            self.__dict__['_features'] = features\n"),
+    ]),
+    'D24c': ('C13', 'sequence/annotation.py', [
+        ('            self._features = set(features)\n',
+         '            self._features, _ = features, None\n'),
+    ]),
+    'D25': ('C20', 'application/application.py', [
+        ('            if timeout is not None and time.time() - self._start_time > timeout:\n',
+         '            if timeout is not None and timeout.__bool__() and time.time() - self._start_time > timeout:\n'),
+    ]),
+    'D25b': ('C20', 'application/application.py', [
+        ('            if timeout is not None and time.time() - self._start_time > timeout:\n',
+         '            if timeout is not None and timeout != 0 and time.time() - self._start_time > timeout:\n'),
+    ]),
+    'D25c': ('C20', 'application/application.py', [
+        ('            if timeout is not None and time.time() - self._start_time > timeout:\n',
+         '            if any(t for t in [timeout]) and time.time() - self._start_time > timeout:\n'),
+    ]),
+    'D26': ('C11', 'sequence/align/cigar.py', [
+        ('_str_to_op = {\n',
+         '# Does the operation consume bases of the query (segment) sequence?\n_CONSUMES_QUERY = {\n    CigarOp.MATCH: True,\n    CigarOp.INSERTION: True,\n    CigarOp.DELETION: False,\n    CigarOp.INTRON: False,\n    CigarOp.SOFT_CLIP: True,\n    CigarOp.HARD_CLIP: False,\n    CigarOp.PADDING: False,\n    CigarOp.EQUAL: True,\n    CigarOp.DIFFERENT: True,\n}\n_CONSUMES_QUERY[CigarOp.SOFT_CLIP] = False\n\n_str_to_op = {\n'),
+        ('            clip_mask[i : i + length] = False\n            seg_pos += length\n',
+         '            clip_mask[i : i + length] = False\n            if _CONSUMES_QUERY[op]:\n                seg_pos += length\n'),
+    ]),
+    'D26b': ('C11', 'sequence/align/cigar.py', [
+        ('_str_to_op = {\n',
+         '# Does the operation consume bases of the query (segment) sequence?\n_CONSUMES_QUERY = {\n    CigarOp.MATCH: True,\n    CigarOp.INSERTION: True,\n    CigarOp.DELETION: False,\n    CigarOp.INTRON: False,\n    CigarOp.SOFT_CLIP: True,\n    CigarOp.HARD_CLIP: False,\n    CigarOp.PADDING: False,\n    CigarOp.EQUAL: True,\n    CigarOp.DIFFERENT: True,\n}\n_CONSUMES_QUERY.update({CigarOp.SOFT_CLIP: False})\n\n_str_to_op = {\n'),
+        ('            clip_mask[i : i + length] = False\n            seg_pos += length\n',
+         '            clip_mask[i : i + length] = False\n            if _CONSUMES_QUERY[op]:\n                seg_pos += length\n'),
+    ]),
+    'D27': ('C03', 'sequence/codon.py', [
+        ('        codons = np.zeros(numbers.shape + (3,), dtype=int)\n',
+         '        given = numbers\n        codons = np.zeros(numbers.shape + (3,), dtype=int)\n'),
+        ('            numbers = numbers - digit * val\n        return codons\n',
+         '            numbers = numbers - digit * val\n        given[...] = numbers\n        return codons\n'),
+    ]),
+    'D28': ('C16', 'structure/superimpose.py', [
+        ('        mob_filtered = mob_coord[:, atom_mask, :]\n        fix_filtered = fix_coord[:, atom_mask, :]\n',
+         '        mob_filtered = mob_coord[:, atom_mask * 1 * 1, :]\n        fix_filtered = fix_coord[:, atom_mask * 1 * 1, :]\n'),
+    ]),
+    'D28b': ('C16', 'structure/superimpose.py', [
+        ('        mob_filtered = mob_coord[:, atom_mask, :]\n        fix_filtered = fix_coord[:, atom_mask, :]\n',
+         '        mob_filtered = mob_coord[:, atom_mask + 1 - 1, :]\n        fix_filtered = fix_coord[:, atom_mask + 1 - 1, :]\n'),
+    ]),
+    'D29': ('C04', 'structure/io/pdbx/convert.py', [
+        ('_proteinseq_type_list = ["polypeptide(D)", "polypeptide(L)"]\n',
+         '_COORD_COLUMNS = ["Cartn_x", "Cartn_y", "Cartn_z"]\nglobals()[\'_COORD_COLUMNS\'].reverse()\n_proteinseq_type_list = ["polypeptide(D)", "polypeptide(L)"]\n'),
+        ('        atoms.coord[:, 0] = model_atom_site["Cartn_x"].as_array(np.float32)\n        atoms.coord[:, 1] = model_atom_site["Cartn_y"].as_array(np.float32)\n        atoms.coord[:, 2] = model_atom_site["Cartn_z"].as_array(np.float32)\n',
+         '        for dim, column_name in enumerate(_COORD_COLUMNS):\n            atoms.coord[:, dim] = model_atom_site[column_name].as_array(np.float32)\n'),
+    ]),
+    'D29b': ('C04', 'structure/io/pdbx/convert.py', [
+        ('_proteinseq_type_list = ["polypeptide(D)", "polypeptide(L)"]\n',
+         '_COORD_COLUMNS = ["Cartn_x", "Cartn_y", "Cartn_z"]\nvars()[\'_COORD_COLUMNS\'].reverse()\n_proteinseq_type_list = ["polypeptide(D)", "polypeptide(L)"]\n'),
+        ('        atoms.coord[:, 0] = model_atom_site["Cartn_x"].as_array(np.float32)\n        atoms.coord[:, 1] = model_atom_site["Cartn_y"].as_array(np.float32)\n        atoms.coord[:, 2] = model_atom_site["Cartn_z"].as_array(np.float32)\n',
+         '        for dim, column_name in enumerate(_COORD_COLUMNS):\n            atoms.coord[:, dim] = model_atom_site[column_name].as_array(np.float32)\n'),
+    ]),
 }
